@@ -2,7 +2,7 @@
 """(Re)writes seeded/<id>/meta.json from the sub-agents' notes (scratch dirs, while they exist) and the results of tools_seeded_matrix.sh."""
 import glob, json, os, re, shutil, sys
 V = "/verif"; WT = "/tmp/wt"
-PORTED = {"C13-m9": "(ported in place)", "C06-m2": "m2b.diff", "C10-m2": "m2b.diff", "C15-m1": "m1b.diff", "C08-m1": "m1b.diff", "C19-m1": "(ported in place)", "C06-m5": "(ported in place)"}
+PORTED = {"C13-m9": "(ported in place)", "C04-m1": "(ported in place)", "C09-m1": "(ported in place)", "C10-m4": "(ported in place)", "C06-m2": "m2b.diff", "C10-m2": "m2b.diff", "C15-m1": "m1b.diff", "C08-m1": "m1b.diff", "C19-m1": "(ported in place)", "C06-m5": "(ported in place)"}
 OBSOLETE = {"C04-m2": "made harmless by fix 7c22f65 (reward functions became picklable by value): with the change applied the agent's own demonstration passes on the current tree"}
 STRENGTH = {
  "C05": "cross-process layer: streams are recomputed in child interpreters with other hash seeds", "C20": "shared-encoder histories (one encoder object, many calls) and zero-valued scalars added to the generator",
